@@ -266,13 +266,10 @@ def nd_pool(rng):
 def nd_array(rng, gen, S, maxdim=2, depth=None):
     """polynomial array over gen.pool built on the many-axes arguments: an elementwise expression of shape S (or a leading /
     trailing part of it), reduced to at most `maxdim` axes by sums, contractions with constants, indexing and diagonals"""
-    shape = tuple(S) if rng.random() < .8 else tuple(S[1:])
-    a = argument(rng.choice(['p', 'q']), gen.pool) if shape == tuple(S) and rng.random() < .5 else None
+    shape = tuple(S) if len(S) == 3 or rng.random() < .8 else tuple(S[1:])
+    a = argument(rng.choice(['p', 'q'] if shape == tuple(S) else ['r', 's']), gen.pool)     # an argument with >= 3 axes always takes part
     b = gen.array(shape, rng.randint(0, 2) if depth is None else depth)
-    if a is None:
-        a = b
-    else:
-        a = rng.choice([lambda: a * b, lambda: a + b, lambda: a * b + a, lambda: a * gen.const(shape) + b])()
+    a = rng.choice([lambda: a * b, lambda: a + b, lambda: a * b + a, lambda: a * gen.const(shape) + b, lambda: a * a + b, lambda: b - a * gen.const(shape)])()
     target = rng.randint(0, maxdim)
     while a.ndim > target:
         op = rng.choice(['sum', 'sum', 'index', 'dot', 'matvec', 'transpose-sum'])
@@ -319,8 +316,10 @@ class Nest:
         return 1 + max([ch.depth() for ch, _ in self.children.values()], default=0)
 
     def inside_chain(self):
-        """largest number of integrals nested through replacements inside integrands (= depth of nested element loops)"""
-        return 1 + max([ch.inside_chain() if where == 'inside' and ch.kind != 'plain' else 0 for ch, where in self.children.values()], default=0)
+        """largest number of integrals nested through replacements inside integrands (= depth of nested element loops);
+        a plain expression passes the nesting on to its own replacements"""
+        own = 0 if self.kind == 'plain' else 1
+        return own + max([ch.inside_chain() for ch, where in self.children.values() if where == 'inside' or self.kind == 'plain'], default=0)
 
     def contains_integral(self):
         return self.kind != 'plain' or any(ch.contains_integral() for ch, _ in self.children.values())
@@ -348,7 +347,7 @@ class Nest:
         return s
 
 
-def nested_case(rng, tname, topo, geom, depth, p_inside=.75):
+def nested_case(rng, tname, topo, geom, depth, p_inside=.75, friendly=False):
     """random tree of integrals / samples / plain expressions connected by argument replacements, `depth` levels deep"""
     basis = topo.basis('std', degree=1)
     n = len(basis)
@@ -359,8 +358,9 @@ def nested_case(rng, tname, topo, geom, depth, p_inside=.75):
     free = {'y': ((n,), float), 'c': ((), float)}
 
     def domain():
-        kinds = ['integral', 'integral', 'integral', 'boundary', 'sample', 'subtopo']
-        if len(topo.interfaces): kinds.append('interfaces')
+        kinds = ['integral'] * 3 + ['sample']      # lowered without Transform* nodes: within reach of the Lean engine
+        if not friendly:
+            kinds += ['boundary', 'subtopo', 'boundary', 'subtopo'] + (['interfaces'] * 2 if len(topo.interfaces) else [])
         kind = rng.choice(kinds)
         degree = rng.choice([1, 2, 3])
         if kind == 'integral': return kind, lambda h: topo.integral(h * J, degree=degree)
